@@ -46,7 +46,7 @@ def model_and_histories(c, judge, extra_skeletons=()):
         ex = c.gen("Lifecycle", life_cfg(c, f"Gen_{focus}.cfg", 3, focus, mdevs, view=False, emit=True))
         sim = c.gen("Lifecycle", life_cfg(c, f"Sim_{focus}.cfg", 8, focus, mdevs, view=False, emit=True), simulate=600 if c.quick else 6000, depth=9, seed=c.seed + 7)
         stats[focus] = {"depth3_exhaustive": len(ex), "simulated": len(sim)}
-        ne, ns = (200, 450) if c.quick else (3000, 12000)
+        ne, ns = ((120, 260) if judge in ("C08", "C13") else (200, 450)) if c.quick else (3000, 12000)
         sks += rnd.sample(ex, min(len(ex), ne)) + rnd.sample(sim, min(len(sim), ns))
     sks += list(extra_skeletons)
     if len(sks) < 300:
